@@ -42,6 +42,12 @@ type Solver struct {
 	errSeen                string
 	depth                  int
 	ufDeclared             map[string]bool
+	tPlain, tTac           time.Duration
+	nPlain, nTac           int
+	sinceSample            int
+	usedTactic, timed      bool
+	HintLarge              bool // many symbolic variables on the path: go straight to the SAT pipeline
+	PureBV                 bool // set by the caller per query: no UF / real terms asserted
 	ModelTimeout           time.Duration
 	ModelTimeouts          int
 	epoch                  int // incremented whenever the process is restarted (all state lost)
@@ -185,7 +191,15 @@ func (s *Solver) readLine() string {
 
 func (s *Solver) Check() Res {
 	t0 := time.Now()
-	s.send("(check-sat)")
+	if c := os.Getenv("POLYSYM_CHECKCMD"); c != "" && s.PureBV {
+		s.send(c)
+	} else if s.PureBV && os.Getenv("POLYSYM_PLAIN_CHECKSAT") == "" && s.chooseTactic() {
+		// the assertions are pure bit-vector / Boolean: z3's SAT pipeline is far faster
+		// than its incremental SMT core on them
+		s.send("(check-sat-using (then simplify bit-blast sat))")
+	} else {
+		s.send("(check-sat)")
+	}
 	s.in.Flush()
 	// watchdog: z3's own :timeout is not always honoured (preprocessing, memory growth)
 	done := make(chan string, 1)
@@ -203,6 +217,7 @@ func (s *Solver) Check() Res {
 		return Unknown
 	}
 	s.Time += time.Since(t0)
+	s.recordTiming(time.Since(t0))
 	if strings.HasPrefix(s.errSeen, "solver pipe closed") {
 		s.errSeen = ""
 		s.Restart()
@@ -224,6 +239,58 @@ func (s *Solver) Check() Res {
 	}
 	s.NUnknown++
 	return Unknown
+}
+
+// chooseTactic decides adaptively between z3's incremental core (fast on tiny
+// queries) and the bit-blast/SAT pipeline (fast on large ones): both are
+// sampled, then the one with the lower mean time is used, with periodic re-sampling.
+func (s *Solver) chooseTactic() bool {
+	s.usedTactic = false
+	if s.HintLarge {
+		s.usedTactic = true
+		s.timed = false
+		return true
+	}
+	switch {
+	case s.nPlain < 5:
+	case s.nTac < 5:
+		s.usedTactic = true
+	default:
+		s.sinceSample++
+		mp := s.tPlain / time.Duration(s.nPlain)
+		mt := s.tTac / time.Duration(s.nTac)
+		better := mt < mp
+		if s.sinceSample%400 < 8 {
+			s.usedTactic = !better // re-sample the other strategy
+		} else {
+			s.usedTactic = better
+		}
+	}
+	s.timed = true
+	return s.usedTactic
+}
+
+func (s *Solver) recordTiming(d time.Duration) {
+	if !s.timed {
+		return
+	}
+	s.timed = false
+	// exponential forgetting keeps the estimate current
+	if s.usedTactic {
+		if s.nTac >= 200 {
+			s.tTac /= 2
+			s.nTac /= 2
+		}
+		s.tTac += d
+		s.nTac++
+	} else {
+		if s.nPlain >= 200 {
+			s.tPlain /= 2
+			s.nPlain /= 2
+		}
+		s.tPlain += d
+		s.nPlain++
+	}
 }
 
 // TakeError returns and clears a recorded solver error.
